@@ -214,6 +214,71 @@ theorem error_before_attribution (n d k : Nat) (inputs : Nat → List Nat) (h : 
     (checkDuplicates {} (routed n inputs d)).2 ≠ none := by
   unfold detect at h; rw [h]; simp
 
+/-! ## Why ONE validator over all tags a shard owns
+
+`Query::execute` builds a single `UniqueTagValidator::new(resharded_tags.len())` and checks all
+resharded tags with it.  Validating the tags in chunks, each with a fresh validator (a "bounded
+memory" variant), is NOT equivalent: two equal tags in different chunks are never compared. -/
+
+/-- chunk-wise validation: every chunk is checked by its own fresh validator; the first failing
+chunk's verdict is returned (`try_for_each`). -/
+def chunkedCheck : List (List Nat) → Option Nat
+  | [] => none
+  | c :: rest =>
+    match (checkDuplicates {} c).2 with
+    | some k => some k
+    | none => chunkedCheck rest
+
+/-- the chunks of size `k` of a list (`slice::chunks(k)`), `fuel ≥ l.length` iterations. -/
+def chunksOf (k : Nat) : Nat → List Nat → List (List Nat)
+  | 0, _ => []
+  | fuel + 1, l => if l.isEmpty then [] else l.take k :: chunksOf k fuel (l.drop k)
+
+theorem chunkedCheck_none (cs : List (List Nat)) : chunkedCheck cs = none ↔ ∀ c ∈ cs, c.Nodup := by
+  induction cs with
+  | nil => simp [chunkedCheck]
+  | cons c rest ih =>
+    simp only [chunkedCheck, List.mem_cons, forall_eq_or_imp]
+    cases h : (checkDuplicates {} c).2 with
+    | none =>
+      have := (checkDuplicates_none c {}).1 h
+      simp [ih, this.1]
+    | some k =>
+      have : ¬ c.Nodup := fun hn => by
+        have := (checkDuplicates_none c {}).2 ⟨hn, by simp⟩
+        rw [h] at this; cases this
+      simp [this]
+
+/-- **chunked_validation_counterexample.**  For every tag `t` and all duplicate-free fillers `a`, `b`
+not containing `t`: a copy of `t` in the first chunk and another in a later chunk is ACCEPTED by
+per-chunk validators, while the single validator of `Query::execute` over the same tags rejects it.
+(Instance: `a` = 4095 further tags of the first 4096-chunk, `b ++ [t]` = the second chunk: the first
+and the 4097th report of one shard are byte-identical.) -/
+theorem chunked_validation_counterexample (t : Nat) (a b : List Nat)
+    (ha : a.Nodup) (hb : b.Nodup) (hta : t ∉ a) (htb : t ∉ b) :
+    chunkedCheck [t :: a, b ++ [t]] = none ∧
+    (checkDuplicates {} ((t :: a) ++ (b ++ [t]))).2 ≠ none := by
+  constructor
+  · rw [chunkedCheck_none]
+    intro c hc
+    simp only [List.mem_cons, List.not_mem_nil, or_false] at hc
+    rcases hc with rfl | rfl
+    · exact List.nodup_cons.2 ⟨hta, ha⟩
+    · rw [List.nodup_append]
+      refine ⟨hb, by simp, ?_⟩
+      intro x hx y hy
+      simp only [List.mem_singleton] at hy
+      subst hy
+      intro e; subst e; exact htb hx
+  · intro h
+    have := ((checkDuplicates_none _ {}).1 h).1
+    rw [List.cons_append, List.nodup_cons] at this
+    exact this.1 (by simp)
+
+/-- so chunked validation is not equivalent to the validator of the code, already for chunks of 2. -/
+example : chunkedCheck (chunksOf 2 3 [7, 1, 7]) = none ∧ (checkDuplicates {} [7, 1, 7]).2 = some 3 := by decide
+example : chunksOf 2 5 [1, 2, 3, 4, 5] = [[1, 2], [3, 4], [5]] := by decide
+
 example : detect 3 (fun s => [[7, 1], [5], [4, 7]].getD s []) 1 = some 4 := by decide
 example : detect 3 (fun s => [[7, 1], [5], [4, 7]].getD s []) 0 = none := by decide
 
